@@ -1419,8 +1419,9 @@ impl<T> Queries<T> {
 
 // Kani harnesses for the private `Queries` type live outside the repository.
 #[cfg(kani)]
-#[path = "/verif/kani/incrate/queries.rs"]
-mod verif_kani;
+mod verif_kani {
+    include!("/verif/kani/incrate/queries.rs");
+}
 
 //============ Tests =========================================================
 
